@@ -90,7 +90,7 @@ def labels_of(case) -> str:
 
 def epoch_seconds(cell):
     """independent reading of a generated timestamp cell [y, m, d, hh, mm, ss]"""
-    if cell is None or cell == "garbage":
+    if cell is None or isinstance(cell, str):
         return None
     y, m, d, hh, mm, ss = cell
     delta = dt.datetime(y, m, d, hh, mm, ss) - dt.datetime(1970, 1, 1)
